@@ -202,8 +202,8 @@ def handle : Handler
       match natsOfInts? out with
       | none => some "fails negative-label"
       | some o =>
-        some (verdict (decide (SamePartition l o) && decide (ValidClustering l.length o true))
-          s!"same={decide (SamePartition l o)} valid={decide (ValidClustering l.length o true)}")) "bad-args"
+        some (verdict (samePartitionB l o && decide (ValidClustering l.length o true))
+          s!"same={samePartitionB l o} valid={decide (ValidClustering l.length o true)}")) "bad-args"
   | "c05.spec_post", [levels, index, sh, labels] => some <| Option.getD (do
       -- the final labels induce the partition found by the kernels (levels composed), read through `index`
       let levels ← intListList? levels
@@ -212,7 +212,7 @@ def handle : Handler
       let n := (levels.headD []).length
       let a := levels.foldl (fun (a : List Nat) raw => a.map fun x => (inverse raw).getD x 0) (List.range n)
       let seen := if (← bool? sh) then index.map fun v => labels.getD v (-1) else labels
-      some (verdict (decide (SamePartition a seen) && labels.length == n))) "bad-args"
+      some (verdict (samePartitionB a seen && labels.length == n))) "bad-args"
   | "c05.spec_shuffle", [n, m, ip, ix, dt, bip, kn, kip, kix, index] => some <| Option.getD (do
       -- the graph handed to the kernel in the first round is the symmetrised (block) adjacency with node `j`
       -- standing for original node `index[j]` — the convention the un-shuffle of `_post_processing` inverts
@@ -233,7 +233,7 @@ def handle : Handler
   | "c05.spec_same", [a, b] => some <| Option.getD (do
       let a ← intList? a
       let b ← intList? b
-      some (verdict (decide (SamePartition a b)))) "bad-args"
+      some (verdict (samePartitionB a b))) "bad-args"
   | "c05.spec_valid", [n, labels, so] => some <| Option.getD (do
       let n ← n.toNat?
       let labels ← intList? labels
